@@ -189,7 +189,7 @@ def run(ck):
             "every value SegmentTreeNode::removeRoute returns is this node's own emptiness: it mentions each member that can hold a child "
             "or a route (fixed_, param_, optional_, splat_, route_), so a parent erases a child only when nothing is left in it", 1)
     node = prog.cls(R + "SegmentTreeNode")
-    members = [x["name"] for x in node["fields"] if x["name"] != "resource_ref_" and ("map" in x["type"] or "shared_ptr" in x["type"])]
+    members = [x["name"] for x in node["fields"] if x["name"] != "resource_ref_" and ("map" in (x.get("ctype") or x["type"]) or "shared_ptr" in (x.get("ctype") or x["type"]))]
     ck.require(len(members) >= 5, "SegmentTreeNode members holding children/route: %s" % members)
     rr = lib.single(prog, N + "removeRoute")
     rets = [e for e in rr.events("return")]
